@@ -87,6 +87,54 @@ func TestVerifC17Issue(t *testing.T) {
 			if viol {
 				o.Mon("C17 issue first-attempts-exceed-limit case="+c.name, map[string]any{"limit": c.lim, "window_ns": int64(c.win), "order_instants_ns": at})
 			}
+			// ---- many simultaneous FIRST uses of the limiter of one CA and account: whoever comes
+			// first creates it, everybody must end up waiting on that one (look-up and creation are
+			// one critical section). A burst released by a barrier, limiter map emptied each round.
+			client, err := iss.newACMEClientWithAccount(context.Background(), false, false)
+			if err != nil {
+				t.Errorf("%s: client: %v", c.name, err)
+				return
+			}
+			rounds, burst := 12, 24
+			if vThorough() {
+				rounds = 60
+			}
+			for r := 0; r < rounds; r++ {
+				vStopRateLimiters()
+				t0 := time.Now()
+				gate := make(chan struct{})
+				var mu sync.Mutex
+				var adm []int64
+				var wg2 sync.WaitGroup
+				for i := 0; i < burst; i++ {
+					wg2.Add(1)
+					go func() {
+						defer wg2.Done()
+						<-gate
+						if err := client.throttle(context.Background(), []string{"burst.c17.example"}); err != nil {
+							return
+						}
+						mu.Lock()
+						adm = append(adm, int64(time.Since(t0)))
+						mu.Unlock()
+					}()
+				}
+				synctest.Wait()
+				close(gate)
+				wg2.Wait()
+				sort.Slice(adm, func(i, j int) bool { return adm[i] < adm[j] })
+				bad := len(adm) != burst
+				for i := 0; i+c.lim < len(adm); i++ {
+					if adm[i+c.lim]-adm[i] < int64(c.win) {
+						bad = true
+					}
+				}
+				o.Stat("throttle_bursts_checked", 1)
+				if bad {
+					o.Mon("C17 issue simultaneous-first-uses-exceed-limit", map[string]any{"case": c.name, "limit": c.lim, "window_ns": int64(c.win), "admission_instants_ns": adm})
+					break
+				}
+			}
 		})
 	}
 }
